@@ -438,6 +438,11 @@ Conseq(k, dk, s, c, o, t) ==
     \* silent zones: any of the statement's results, but what is registered afterwards is a real thing
     [] k = "ZoneConsistent" ->
           /\ (o.res = "ok") => (n \in DOMAIN t.L /\ o.ret = n)
+          \* a call that fails does not unload what was loaded (a version pulled in by the target's own
+          \* dependency closure may have completed a lazily loaded target before the conflict shows)
+          /\ (o.res # "ok") => (/\ n \in DOMAIN t.L
+                                /\ \/ t.L[n] = L[n]
+                                   \/ (o.res = "CONFLICT" /\ ~t.L[n].lazy /\ LegitFile(dk, t.L[n], n)))
           /\ (n \in DOMAIN t.L) =>
                 (\/ (n \in DOMAIN L /\ t.L[n] = L[n])
                  \/ (LegitFile(dk, t.L[n], n) /\ (\E i \in DOMAIN SP(s, c) : SP(s, c)[i] = t.L[n].dir))
